@@ -332,6 +332,13 @@ fn enc_case(line: &str, tpl: &Templates) -> (String, Vec<(String, String)>) {
     let (dbdir, created_dirs): (PathBuf, Vec<PathBuf>) = match parent {
         "nodir" => (d.path().join("sub"), vec![d.path().join("sub")]),
         "nodir2" => (d.path().join("outer").join("sub"), vec![d.path().join("outer"), d.path().join("outer").join("sub")]),
+        p if p.starts_with("nodir") => {
+            // nodir<k>: k missing levels l0/l1/../l<k-1>
+            let k: usize = p[5..].parse().unwrap();
+            let mut cur = d.path().to_path_buf(); let mut all = vec![];
+            for i in 0..k { cur = cur.join(format!("l{i}")); all.push(cur.clone()); }
+            (cur, all)
+        }
         _ => (d.path().to_path_buf(), vec![]),
     };
     let db = dbdir.join("db.sqlite");
@@ -412,6 +419,7 @@ fn matrix_lines(def: &str) -> Vec<String> {
             }
             v.push(format!("ENC {ctor} {kr} missing nodir def={def}"));
             v.push(format!("ENC {ctor} {kr} missing nodir2 def={def}"));
+            if kr == "none" { v.push(format!("ENC {ctor} {kr} missing nodir3 def={def}")); v.push(format!("ENC {ctor} {kr} missing nodir5 def={def}")); }
         }
     }
     v
